@@ -63,10 +63,34 @@ def bound_form(ctx, rule):
                 if len(vals) == 2 and len(some) == 1 and len(none) == 1:
                     x = strip_refs(strip_refs(some[0][1])[1])
             good_red = x is not None and q.is_call(x, 'reduce') and len(x[2]) == 2 and x[2][1][0] == 'fn' and short(x[2][1][1]) == 'max' and 'f64' in x[2][1][1]
+            loop_src = None
+            if not good_red and x is not None and x[0] == 'var':
+                # the reduction written as a running-maximum loop: `let mut m = *it.next()?; for r in it { m = f64::max(m, r) }`
+                vals = [strip_refs(v) for _, _, v in q.multi_def_values(f, x[1])]
+                me = ('var', x[1], f.local_name(x[1]))
+                upd = [v for v in vals if v[0] == 'call' and short(v[1]) == 'max' and 'f64' in v[1] and len(v[2]) == 2 and any(strip_refs(a) == me for a in v[2])]
+                init = [v for v in vals if v not in upd]
+                def next_of(e_):
+                    n_ = q.find_sub(e_, lambda s_: s_[0] == 'call' and short(s_[1]) == 'next')
+                    return norm(strip_refs(n_[2][0])) if n_ is not None and n_[2] else None
+                if len(upd) == 1 and len(init) == 1:
+                    other = [a for a in upd[0][2] if strip_refs(a) != me]
+                    i0, i1 = next_of(init[0]), next_of(other[0]) if other else None
+                    # both the first element and the loop items come from the same iterator (the loop's into_iter of it)
+                    def base(e_):
+                        while e_ is not None and e_[0] == 'call' and short(e_[1]) in ('into_iter', 'by_ref') and e_[2]:
+                            e_ = norm(strip_refs(e_[2][0]))
+                        return e_
+                    if i0 is not None and i1 is not None and base(i0) == base(i1):
+                        good_red = True
+                        loop_src = base(i0)
+            if not good_red and x is not None and x[0] == 'var' and not any(short(pp) == 'reduce' for _, _, pp in f.calls()):
+                ctx.anchor_lost(rule, 'cum_regret: maximum over the cumulative regrets', 'the value under the positive part is a local the rule cannot trace: %s' % facts.show(x)[:40])
+                return
             if not good_red:
                 why.append('the positive part is not taken of an f64::max reduction')
             else:
-                src = strip_refs(x[2][0])
+                src = strip_refs(x[2][0]) if loop_src is None else loop_src
                 whole = q.find_sub(src, lambda s: s[0] == 'param' and s[1] == 3) is not None and \
                     not any(q.is_call(s, nm) for s in facts.walk(src) for nm in ('skip', 'take', 'filter', 'step_by', 'skip_while', 'take_while'))
                 ident = True
